@@ -292,20 +292,26 @@ func mergeSnapshots(next, existing metadata.ClusterMetadata) metadata.ClusterMet
 	if len(existing.Topics) == 0 {
 		return next
 	}
-	seen := make(map[string]struct{}, len(next.Topics))
-	for _, topic := range next.Topics {
+	seen := make(map[string]int, len(next.Topics))
+	for i, topic := range next.Topics {
 		name := *topic.Topic
 		if name == "" {
 			continue
 		}
-		seen[name] = struct{}{}
+		seen[name] = i
 	}
 	for _, topic := range existing.Topics {
 		name := *topic.Topic
 		if name == "" || topic.ErrorCode != 0 {
 			continue
 		}
-		if _, ok := seen[name]; ok {
+		if i, ok := seen[name]; ok {
+			// Partitions are never removed: brokers grow topics through the
+			// CreatePartitions API, so keep the ones the resource does not know yet.
+			if have := len(next.Topics[i].Partitions); len(topic.Partitions) > have {
+				grown := append([]protocol.MetadataPartition(nil), next.Topics[i].Partitions...)
+				next.Topics[i].Partitions = append(grown, topic.Partitions[have:]...)
+			}
 			continue
 		}
 		next.Topics = append(next.Topics, topic)
